@@ -508,6 +508,34 @@ def fault_part(ctx, real, quick):
             if h not in e:
                 problems.append((case, "big reported for %s" % h.decode(), e.decode("latin-1")[-300:], "the file that could not be written is not reported for host %s" % h.decode())); break
         shutil.rmtree(root, ignore_errors=True)
+    # (c) trees hundreds of levels deep copied back by rpdcp: the receiver runs in the per-host worker thread and recurses per level
+    for depth in ((300, 1100) if quick else (150, 300, 700, 1100, 1500)):
+        root = os.path.join(base, "deep%d" % depth)
+        os.makedirs(os.path.join(root, "out"))
+        for h in HOSTS[:2]:
+            d = os.path.join(root, h.decode(), "t")
+            os.makedirs(d + "/d" * depth)
+            with open(d + "/d" * depth + "/leaf", "w") as fh:
+                fh.write("leaf of " + h.decode())
+            with open(d + "/d" * (depth // 2) + "/mid", "w") as fh:
+                fh.write("mid of " + h.decode())
+        rc, o, e = real.run(["-Rpcptest", "-w", ",".join(h.decode() for h in HOSTS[:2]), "-r", b"t", b"out"], prog="rpdcp", cwd=root, timeout=120)
+        nruns += 1
+        case = {"kind": "rpdcp -r of a tree %d levels deep from two hosts" % depth, "hosts": [h.decode() for h in HOSTS[:2]]}
+        cr = pcpeng.crashed(rc, e)
+        if cr:
+            problems.append((case, "out/t.<host> = the tree", cr, "rpdcp crashed or did not end on a tree %d levels deep: %s" % (depth, cr)))
+        else:
+            for h in HOSTS[:2]:
+                d = os.path.join(root, "out", "t." + h.decode())
+                try:
+                    ok = open(d + "/d" * depth + "/leaf").read() == "leaf of " + h.decode() and open(d + "/d" * (depth // 2) + "/mid").read() == "mid of " + h.decode()
+                except OSError:
+                    ok = False
+                if not ok:
+                    problems.append((case, "out/t.%s faithful down to level %d" % (h.decode(), depth), "leaf or mid file missing or wrong",
+                                     "the copy of a tree %d levels deep from %s is incomplete" % (depth, h.decode()))); break
+        shutil.rmtree(root, ignore_errors=True)
     return nruns, problems
 
 
